@@ -357,7 +357,10 @@ Definition alt_find_local_time_type (a : alt_time) (unix_time : Z) : R (res ltt)
   if is_dst_now then ok (a_dst a) else ok (a_std a).
 
 (* AlternateTime::find_local_time_type_from_local: the wall-clock reading arrives as
-   (local_time.year(), local_time.and_utc().timestamp()) *)
+   (local_time.year(), local_time.and_utc().timestamp()).  Ambiguous pairs in the
+   (earliest, latest) order of fixes/C05-ambiguous-order.diff (larger offset first); the
+   hemisphere test compares the two transitions' local times as repaired by
+   fixes/C05-rule-same-month.diff (the unrepaired code compared their months only). *)
 Definition alt_find_local_time_type_from_local (a : alt_time) (current_year local_time : Z)
   : R (res (mlt ltt)) :=
   let std := a_std a in let dst := a_dst a in
@@ -376,26 +379,22 @@ Definition alt_find_local_time_type_from_local (a : alt_time) (current_year loca
   match ut_offset std ?= ut_offset dst with
   | Eq => ok (MSingle std)
   | Lt =>
-      let* '(ms, _) := transition_date (dst_start a) current_year in
-      let* '(me, _) := transition_date (dst_end a) current_year in
-      if ms <? me then
+      if dst_start_transition_start <? dst_end_transition_start then
         if local_time <=? dst_start_transition_start then ok (MSingle std)
         else if (local_time >? dst_start_transition_start) && (local_time <? dst_start_transition_end) then ok MNone
         else if (local_time >=? dst_start_transition_end) && (local_time <? dst_end_transition_end) then ok (MSingle dst)
-        else if (local_time >=? dst_end_transition_end) && (local_time <=? dst_end_transition_start) then ok (MAmbiguous std dst)
+        else if (local_time >=? dst_end_transition_end) && (local_time <=? dst_end_transition_start) then ok (MAmbiguous dst std)
         else ok (MSingle std)
       else
         if local_time <? dst_end_transition_end then ok (MSingle dst)
-        else if (local_time >=? dst_end_transition_end) && (local_time <=? dst_end_transition_start) then ok (MAmbiguous std dst)
+        else if (local_time >=? dst_end_transition_end) && (local_time <=? dst_end_transition_start) then ok (MAmbiguous dst std)
         else if (local_time >? dst_end_transition_end) && (local_time <? dst_start_transition_start) then ok (MSingle std)
         else if (local_time >=? dst_start_transition_start) && (local_time <? dst_start_transition_end) then ok MNone
         else ok (MSingle dst)
   | Gt =>
-      let* '(ms, _) := transition_date (dst_start a) current_year in
-      let* '(me, _) := transition_date (dst_end a) current_year in
-      if ms <? me then
+      if dst_start_transition_start <? dst_end_transition_start then
         if local_time <? dst_start_transition_end then ok (MSingle std)
-        else if (local_time >=? dst_start_transition_end) && (local_time <=? dst_start_transition_start) then ok (MAmbiguous dst std)
+        else if (local_time >=? dst_start_transition_end) && (local_time <=? dst_start_transition_start) then ok (MAmbiguous std dst)
         else if (local_time >? dst_start_transition_start) && (local_time <? dst_end_transition_start) then ok (MSingle dst)
         else if (local_time >=? dst_end_transition_start) && (local_time <? dst_end_transition_end) then ok MNone
         else ok (MSingle std)
@@ -403,7 +402,7 @@ Definition alt_find_local_time_type_from_local (a : alt_time) (current_year loca
         if local_time <=? dst_end_transition_start then ok (MSingle dst)
         else if (local_time >? dst_end_transition_start) && (local_time <? dst_end_transition_end) then ok MNone
         else if (local_time >=? dst_end_transition_end) && (local_time <? dst_start_transition_end) then ok (MSingle std)
-        else if (local_time >=? dst_start_transition_end) && (local_time <=? dst_start_transition_start) then ok (MAmbiguous dst std)
+        else if (local_time >=? dst_start_transition_end) && (local_time <=? dst_start_transition_start) then ok (MAmbiguous std dst)
         else ok (MSingle dst)
   end.
 
